@@ -754,5 +754,5 @@ META = {
     "enumeration itself rewrites (stale-lock clearing). The numeric cut k and the SQLite query are not decided.",
     "note": "Decides the listed structural clauses, not the behaviour. Trusted: list.sort on tuples orders by the "
     "first element; the first tuple element is the closing timestamp (read, not checked).",
-    "more": "Also decided: a session's file is marked unlocked only under the flusher's at-exit mode (or by the reboot repair under its boot test), and only session-end code asks for that mode. The limit text is matched in full and its unit resolved by one exact table lookup (`1,000 files` must not become 1 command, `MiB` not minutes). Every whole-file rewrite of the live session's own file carries the lock metadata over (`history clear` must not turn the live file into the oldest unlocked one).",
+    "more": "Also decided: a session's file is marked unlocked only under the flusher's at-exit mode (or by the reboot repair under its boot test), and only session-end code asks for that mode. The limit text is matched in full and its unit resolved by one exact table lookup (`1,000 files` must not become 1 command, `MiB` not minutes). Every whole-file rewrite of the live session's own file carries the lock metadata over (`history clear` must not turn the live file into the oldest unlocked one). The 'unless listed already' membership test of the enumeration looks for a path among paths, not among (path, mtime) pairs.",
 }
